@@ -192,9 +192,11 @@ pub fn input_alphabet(node: &Node, f: Flags, extra: &[char]) -> Vec<char> {
     a.retain(|c| *c != '\u{0}');
     let own = a.clone();
     a.extend(own.iter().cloned());
-    if f.i {
-        for c in &own {
-            if let Some(d) = ucd::counterpart(*c) {
+    // case counterparts: always present (without flag i they must not match), more of them under i
+    for c in &own {
+        if let Some(d) = ucd::counterpart(*c) {
+            a.push(d);
+            if f.i {
                 a.push(d);
             }
         }
